@@ -570,6 +570,13 @@ def check(ctx, rep):
 
     # a changeset that is produced but never reaches the run-wide record is an on-disk change without a reported diff
     rule_accumulate_all(ctx, rep)
+    from .c15 import rule_model_faithful, rule_relative_path, rule_report_complete
+
+    # 'a file without a changeset is unchanged, every changeset names a file that did change': what the pipelines record must reach the
+    # report whole and under the path that was written
+    rule_report_complete(ctx, rep)
+    rule_relative_path(ctx, rep)
+    rule_model_faithful(ctx, rep)
     rep.not_covered += [
         "byte-level applicability of difflib output (BOM, encodings, final newline arithmetic)",
         "lossless round-trip of libcst parse/emit (trusted)",
